@@ -185,7 +185,7 @@ Tiles(F, P) ==
              /\ Cardinality({ s[1] : s \in on }) = Cardinality(on)
 
 (* ---- Orbit: per selected face ---------------------------------------------------------- *)
-Sel == ndJsonDeserialize(IOEnv.SEL_FILE)       \* records [ id, dirs ]
+Sel == ndJsonDeserialize(IOEnv.SEL_FILE)       \* records [ id, dirs, full ]; full: also shifts and subdivisions
 \* initial states are block markers (-b); their successors are the record indices of the block, so
 \* that TLC's workers share the records (initial states are enumerated by a single thread)
 OrbBlock == 8
@@ -194,11 +194,12 @@ OrbNext == /\ f < 0
            /\ f' \in { k \in 1..Len(Sel) : (k - 1) \div OrbBlock = (-f) - 1 }
 OrbFace == Sel[f].dirs
 OrbPremise == f > 0 => ConvexCCW(OrbFace) /\ SidesShorterThan90(OrbFace)
-OrbTiles   == f > 0 => \A s \in SubdivSet(OrbFace) : Tiles(OrbFace, s.pieces)
+OrbSubs    == IF Sel[f].full THEN SubdivSet(OrbFace) ELSE {}
+OrbTiles   == f > 0 => \A s \in OrbSubs : Tiles(OrbFace, s.pieces)
 \* the tiling relation is not vacuous: dropping a piece, or reversing one, breaks it
 Reverse3(P) == [ j \in 1..Len(P) |-> P[Len(P) + 1 - j] ]
 OrbTilesSensitive == f > 0 =>
-    \A s \in SubdivSet(OrbFace) :
+    \A s \in OrbSubs :
         /\ ~Tiles(OrbFace, Tail(s.pieces))
         /\ ~Tiles(OrbFace, [ s.pieces EXCEPT ![1] = Reverse3(@) ])
         /\ ~Tiles(OrbFace, Append(s.pieces, s.pieces[1]))
@@ -208,10 +209,10 @@ OrbLaws    == f > 0 =>
 OrbEmit == f > 0 => PrintT(<<"O", Sel[f].id,
               [ ex     |-> ExcessDescr(OrbFace),
                 bucket |-> Bucket(OrbFace),
-                shifts |-> [ k \in 1..(Len(OrbFace) - 1) |-> Shift(OrbFace, k) ],
+                shifts |-> IF Sel[f].full THEN [ k \in 1..(Len(OrbFace) - 1) |-> Shift(OrbFace, k) ] ELSE <<>>,
                 rots   |-> [ r \in 1..Len(RotSeq) |-> RotFace(RotSeq[r], OrbFace) ],
                 subs   |-> { [ kind |-> s.kind, a |-> s.a, b |-> s.b, pieces |-> s.pieces,
-                               ex |-> [ k \in 1..Len(s.pieces) |-> ExcessDescr(s.pieces[k]) ] ] : s \in SubdivSet(OrbFace) } ]>>)
+                               ex |-> [ k \in 1..Len(s.pieces) |-> ExcessDescr(s.pieces[k]) ] ] : s \in OrbSubs } ]>>)
 
 (* ---- renumberings of a mesh with n nodes and m faces: bijections, emitted by TLC -------- *)
 Stride(n, s, o) == [ i \in 1..n |-> ((i - 1) * s + o) % n ]        \* 0-based image of position i
